@@ -17,6 +17,9 @@ package h
 //   pushpull   N=a I=b                a pushes its state to b and pulls b's
 //   partition  N=a I=b / heal
 //   stopnode   N                      node dies; survivors are notified after PRNG delays (J>0: fixed delay ms)
+//   restartnode N I=downtime ms G     the node's process dies and is started again from its data directory (same node id,
+//                                     message log and consumer offset survive, sessions and replicated state do not);
+//                                     G: it is back before the failure detector of any peer noticed (no leave notification)
 //   rpcmode    N=src I=dst S=ok|fail|blackhole|lossresp
 //   appendfail N=node I=count         the next I appends on that node's log fail
 //   stall      C I=ms                    the client stops reading for that long (broker writes to it block)
@@ -346,6 +349,7 @@ type event struct {
 	data     [][]byte
 	pkt      []byte
 	step     int
+	inc      int // gossipdeliver: incarnation of the sending node's process when the datagram left
 }
 type evHeap []*event
 
@@ -424,6 +428,11 @@ type world struct {
 	rpcLogged     int
 	leaveAt       map[[2]int]int64 // (observer, dead) -> time the observer was told
 	lateGossip    map[[2]int]bool  // (observer, dead): a datagram sent by dead reached observer after that
+	authh         wasp.AuthenticationHandler
+	restartAt     map[int]int64 // node -> time its process came up again (same id, same data directory)
+	restartQuiet  map[int]bool  // node -> its peers never noticed that it was gone
+	incarn        map[int]int   // node -> number of times its process has been started again
+	toldEver      map[[2]int]bool
 }
 
 type settleRec struct {
@@ -433,6 +442,8 @@ type settleRec struct {
 	// Pre: the listings before this settle's anti-entropy exchanges, nil unless every broadcast of
 	// the run so far has been delivered (no loss, partition, node stop or earlier exchange)
 	Pre map[int][]string
+	// Registry: node -> ids of the sessions in its local registry at the instant of the listings
+	Registry map[int]map[string]bool
 }
 
 type authRow struct{ user, pass, mount string }
@@ -1045,6 +1056,11 @@ func newWorld(t *testing.T, c *Case, o *Outcome) *world {
 	default:
 		authh = w.buildAuth()
 	}
+	w.authh = authh
+	w.restartAt = map[int]int64{}
+	w.restartQuiet = map[int]bool{}
+	w.incarn = map[int]int{}
+	w.toldEver = map[[2]int]bool{}
 	for i := 0; i < nn; i++ {
 		for j := 0; j < nn; j++ {
 			if i == j {
@@ -1230,7 +1246,9 @@ func (w *world) apply(e *event) {
 		}
 		w.orderH = append(w.orderH, fmt.Sprintf("g%d>%d", e.j, e.i))
 		w.logf("gossip %d->%d (%d msgs)", e.j, e.i, len(e.data))
-		if _, told := w.leaveAt[[2]int{e.i, e.j}]; told {
+		if _, told := w.leaveAt[[2]int{e.i, e.j}]; told || (e.inc < w.incarn[e.j] && w.toldEver[[2]int{e.i, e.j}]) {
+			// also a datagram of the sender's previous process that arrives after the receiver was
+			// told of that process's death (and possibly of its return)
 			w.lateGossip[[2]int{e.i, e.j}] = true
 			w.statAdd("gossip_delivered_after_leave", 1)
 		}
@@ -1290,8 +1308,13 @@ func (w *world) apply(e *event) {
 				w.mu.Unlock()
 			}
 		}
+	case "nodeup":
+		w.nodeUp(e.i)
 	case "leave":
 		obs, dead := w.nodes[e.i], e.j
+		if w.nodes[dead].alive {
+			break // it is back (and refutes the suspicion): nobody is told that it left
+		}
 		if obs.alive {
 			w.mu.Lock()
 			delete(obs.known, dead)
@@ -1302,6 +1325,7 @@ func (w *world) apply(e *event) {
 			} else {
 				w.leaveAt[[2]int{e.i, dead}] = w.nowMs()
 			}
+			w.toldEver[[2]int{e.i, dead}] = true
 			obs.members.NotifyGossipLeave(nodeID(dead))
 			w.statAdd("fault.leave_notified", 1)
 			w.orderH = append(w.orderH, fmt.Sprintf("leave%d>%d", dead, e.i))
@@ -1520,6 +1544,16 @@ func (w *world) applyStep(e *event, s *Step) {
 		} else {
 			w.stopNode(s.N, s.J)
 		}
+	case "restartnode":
+		if !(s.N >= 0 && s.N < len(w.nodes) && w.nodes[s.N].alive) {
+			break
+		}
+		if s.G {
+			w.stopNode(s.N, -1)
+		} else {
+			w.stopNode(s.N, s.J)
+		}
+		w.push(&event{at: w.nowMs() + s.I, kind: "nodeup", i: s.N})
 	case "leaveat": // observer N is told I left, J ms from now
 		w.push(&event{at: w.nowMs() + s.J, kind: "leave", i: s.N, j: int(s.I)})
 	case "latefrom": // every datagram node N gossips from now on takes I ms (no loss, no duplication)
@@ -1855,7 +1889,7 @@ func (w *world) gossipFrom(n *simNode) {
 			continue
 		}
 		if fd, forced := w.forcedDelay[n.idx]; forced {
-			w.push(&event{at: w.nowMs() + fd, kind: "gossipdeliver", i: p.idx, j: n.idx, data: cp})
+			w.push(&event{at: w.nowMs() + fd, kind: "gossipdeliver", i: p.idx, j: n.idx, data: cp, inc: w.incarn[n.idx]})
 			continue
 		}
 		d := int64(1 + r.Intn(int(maxd)))
@@ -1863,10 +1897,10 @@ func (w *world) gossipFrom(n *simNode) {
 			d += int64(r.Intn(int(maxd) * 10)) // occasionally late enough to be overtaken
 			w.statAdd("fault.gossip_delayed", 1)
 		}
-		w.push(&event{at: w.nowMs() + d, kind: "gossipdeliver", i: p.idx, j: n.idx, data: cp})
+		w.push(&event{at: w.nowMs() + d, kind: "gossipdeliver", i: p.idx, j: n.idx, data: cp, inc: w.incarn[n.idx]})
 		if !w.settling() && int64(r.Intn(100)) < dup {
 			w.statAdd("fault.gossip_duplicated", 1)
-			w.push(&event{at: w.nowMs() + d + int64(1+r.Intn(300)), kind: "gossipdeliver", i: p.idx, j: n.idx, data: cp})
+			w.push(&event{at: w.nowMs() + d + int64(1+r.Intn(300)), kind: "gossipdeliver", i: p.idx, j: n.idx, data: cp, inc: w.incarn[n.idx]})
 		}
 	}
 }
@@ -1928,7 +1962,7 @@ func (w *world) settleCheck(step int) {
 	// one synchronous full exchange: nothing inside the brokers can run between it and the
 	// comparison, so the listings must be identical whatever timers fired during the settle
 	w.pushPullAll()
-	rec := settleRec{Step: step, AtMs: w.nowMs(), Listings: map[int][]string{}, Pre: w.preListings}
+	rec := settleRec{Step: step, AtMs: w.nowMs(), Listings: map[int][]string{}, Pre: w.preListings, Registry: map[int]map[string]bool{}}
 	w.preListings = nil
 	var first []string
 	firstIdx := -1
@@ -1938,6 +1972,11 @@ func (w *world) settleCheck(step int) {
 		}
 		l := listing(n.dstate)
 		rec.Listings[n.idx] = l
+		reg := map[string]bool{}
+		for _, s := range n.local.ListSessions() {
+			reg[s.ID()] = true
+		}
+		rec.Registry[n.idx] = reg
 		if firstIdx < 0 {
 			first, firstIdx = l, n.idx
 			continue
@@ -1996,6 +2035,68 @@ func (w *world) stopNode(i int, fixedDelay int64) {
 				// a flapping peer: declared dead, seen again (a refutation still in flight), dead again
 				w.push(&event{at: w.nowMs() + d + rep, kind: "leave", i: p.idx, j: i, step: -7})
 			}
+		}
+	}
+}
+
+// nodeUp: the process of a stopped node is started again. It keeps what was on disk (node id, message
+// log, consumer offset) and nothing else; it joins the cluster the way memberlist does, with a
+// full-state exchange flagged as a join, and peers that had been told of its departure are told of
+// its return.
+func (w *world) nodeUp(i int) {
+	old := w.nodes[i]
+	if old.alive {
+		return
+	}
+	old.log.inner.Close()
+	n := w.newNode(i)
+	w.mu.Lock()
+	w.nodes[i] = n
+	for j := range w.nodes {
+		if j != i {
+			n.known[j] = true
+			w.nodes[j].known[i] = true
+		}
+	}
+	w.mu.Unlock()
+	w.startNode(n, w.authh)
+	// unnoticed: it is back before every live peer had been told that it left (a peer that was told
+	// removes the records it knows of, which need not be all of them)
+	for _, p := range w.nodes {
+		if _, told := w.leaveAt[[2]int{p.idx, i}]; p != n && p.alive && !told {
+			w.restartQuiet[i] = true
+		}
+	}
+	w.restartAt[i] = w.nowMs()
+	w.incarn[i]++
+	w.statAdd("fault.node_restarted", 1)
+	if w.restartQuiet[i] {
+		w.statAdd("fault.node_restarted_unnoticed", 1)
+	}
+	w.orderH = append(w.orderH, fmt.Sprintf("up%d", i))
+	w.logf("node %d is up again", i)
+	joined := false
+	for _, p := range w.nodes {
+		if p == n || !p.alive {
+			continue
+		}
+		if _, told := w.leaveAt[[2]int{p.idx, i}]; told {
+			p.members.NotifyGossipJoin(n.id)
+			delete(w.leaveAt, [2]int{p.idx, i})
+		}
+		n.members.NotifyGossipJoin(p.id)
+		w.mu.Lock()
+		part := w.blocked[pairKey(i, p.idx)]
+		w.mu.Unlock()
+		if !joined && !part {
+			joined = true
+			sp := p.dstate.Distributor().LocalState(true)
+			sn := n.dstate.Distributor().LocalState(true)
+			n.dstate.Distributor().MergeRemoteState(sp, true)
+			p.dstate.Distributor().MergeRemoteState(sn, true)
+			w.noteRecv(i, "pushpull", sp)
+			w.noteRecv(p.idx, "pushpull", sn)
+			w.statAdd("pushpull_join", 1)
 		}
 	}
 }
